@@ -39,6 +39,7 @@ func specC01() *propertySpec {
 			{"C01-R10", "no-failure-from-an-empty-rejected-attempt: a rejected attempt that drew nothing is not turned into a panic by endGroup's assertion on either stream kind (the search stream does not record, the reproduction does: a one-sided assertion is a 'flaky' report) (shared with C13-R6)", ruleEndGroupAssertExempt},
 			{"C01-R11", "an-invalid-case-is-not-a-falsification: an invalidData panic (Skip, exhausted filter, overrun) is not replaced on its way up by the assertion of a deferred endGroup (shared with C13-R9)", ruleNoDeferredEndGroup},
 			{"C01-R12", "never-flaky-for-a-deterministic-property: checkTB calls a test flaky when the traceback of the error found differs from that of the error shrink returns; shrink returns the error of the last accepted candidate, and accept takes a candidate only if it fails with the traceback of the failure being minimised (shared with C05-R1)", ruleC05R1},
+			{"C01-R13", "no-once-around-user-code: never-flaky also needs that no sync.Once.Do function runs user code — a panic there is remembered as done and the reproduction fails differently (shared with C04-R7)", ruleNoOnceAroundUserCode},
 		},
 	}
 }
@@ -620,7 +621,21 @@ func ruleC05R2(r *Run) {
 	for _, ret := range returnsOf(fn) {
 		c, ok := constInt(p.resolve(p.res(ret, 0)))
 		if !ok {
-			r.Fail("compareData#return", ret.Pos(), "compareData returns a non-constant: "+p.expr(p.res(ret, 0)))
+			// the library form: cmp.Compare(len(a), len(b)) where the lengths differ, slices.Compare(a, b) — which for
+			// equal lengths is exactly the element-wise comparison — where they do not
+			ex := p.expr(p.res(ret, 0))
+			lenCmp := "cmp.Compare(" + la + ", " + lb + ")"
+			facts := p.facts(ret)
+			switch {
+			case ex == lenCmp && holds(facts, lenCmp, "!=", "0"):
+				n += 2
+				r.OK("compareData#return.lengths", ret.Pos(), "lengths differ: the result is the comparison of the lengths")
+			case ex == "slices.Compare($a, $b)" && (holds(facts, lenCmp, "==", "0") || holds(facts, la, "==", lb)):
+				n += 3
+				r.OK("compareData#return.elements", ret.Pos(), "equal lengths: the result is the lexicographic comparison of the elements")
+			default:
+				r.Fail("compareData#return", ret.Pos(), "compareData returns a non-constant: "+ex+" under "+factsStr(facts))
+			}
 			continue
 		}
 		n++
@@ -1075,8 +1090,8 @@ func ruleC05R6(r *Run) {
 		switch x := v.(type) {
 		case *ssa.Call:
 			switch p.calleeKey(x.Common()) {
-			case "without":
-				return true, ""
+			case "without", "slices.Clone", "slices.Concat", "bytes.Clone":
+				return true, "" // documented to return a new slice
 			case "builtin:append":
 				base := p.resolve(x.Common().Args[0])
 				if isNilConst(base) {
@@ -1115,6 +1130,17 @@ func ruleC05R6(r *Run) {
 		for _, cs := range p.callsTo(w, "builtin:append") {
 			if isNilConst(p.resolve(cs.Common.Args[0])) && p.expr(p.variadicOrSlice(cs.Common.Args[1])) == "$data" {
 				ok = true
+			}
+		}
+		for _, cs := range p.callsTo(w, "slices.Clone", "bytes.Clone") {
+			if p.expr(cs.Arg(0)) == "$data" {
+				ok = true
+			}
+		}
+		// … and what it returns derives from that copy, not from the input
+		for _, ret := range returnsOf(w) {
+			if okR, _ := rootOKglobal(p, p.res(ret, 0), 0); !okR {
+				ok = false
 			}
 		}
 		r.Check("without#copies", w.Pos(), ok, "without() works on a copy of its input", "without() no longer copies its input before deleting groups")
@@ -1235,4 +1261,51 @@ func (p *Program) isFramesMore(v ssa.Value, d int) bool {
 		return found
 	}
 	return false
+}
+
+// rootOKglobal: v derives (through append / slicing / slices.Delete / phis) from a fresh copy.
+func rootOKglobal(p *Program, v ssa.Value, d int) (bool, string) {
+	return rootOKseen(p, v, d, map[ssa.Value]bool{})
+}
+
+func rootOKseen(p *Program, v ssa.Value, d int, seen map[ssa.Value]bool) (bool, string) {
+	v = p.resolve(v)
+	if seen[v] {
+		return true, "" // a loop-carried value: judged by its other definitions
+	}
+	seen[v] = true
+	if d > 12 {
+		return false, "too deep"
+	}
+	switch x := v.(type) {
+	case *ssa.Call:
+		switch p.calleeKey(x.Common()) {
+		case "slices.Clone", "slices.Concat", "bytes.Clone":
+			return true, ""
+		case "slices.Delete", "slices.Insert", "slices.Compact":
+			return rootOKseen(p, x.Common().Args[0], d+1, seen)
+		case "builtin:append":
+			base := p.resolve(x.Common().Args[0])
+			if isNilConst(base) {
+				return true, ""
+			}
+			if sl, ok := base.(*ssa.Slice); ok && isNilConst(p.resolve(sl.X)) {
+				return true, ""
+			}
+			return rootOKseen(p, base, d+1, seen)
+		}
+		return false, "result of " + p.calleeKey(x.Common())
+	case *ssa.Phi:
+		for _, e := range x.Edges {
+			if ok, why := rootOKseen(p, e, d+1, seen); !ok {
+				return false, why
+			}
+		}
+		return true, ""
+	case *ssa.Slice:
+		return rootOKseen(p, x.X, d+1, seen)
+	case *ssa.MakeSlice:
+		return true, ""
+	}
+	return false, p.expr(v)
 }
